@@ -43,7 +43,7 @@ struct Case {
     after: usize,
 }
 
-const FAULTS: [(&str, &str, bool); 19] = [
+const FAULTS: [(&str, &str, bool); 20] = [
     ("unknown-name", "no_such_name", false),
     ("type-mismatch", "idf(1) + idf(\"s\")", false),
     ("missing-field", "{a = 1}.b", false),
@@ -59,15 +59,33 @@ const FAULTS: [(&str, &str, bool); 19] = [
     ("bad-argument-count", "idf(1, 2)", false),
     ("wrong-argument-type", "addone(\"s\")", false),
     ("wrong-argument-type-through-symbol", "addone(vstr)", false),
+    ("missing-field-of-select-result", "vsel.nope", false),
     ("syntax-bad-character", "1 # 2", true),
     ("syntax-adjacent-operators", "1 + * 2", true),
     ("syntax-missing-operand", "(1 + )", true),
     ("syntax-stray-bracket", "1 ] + 2", true),
 ];
 
-fn gen_stmt(t: &mut Tape, i: usize, funcs: &[usize], mods: &[usize]) -> Stmt {
+fn gen_stmt(t: &mut Tape, i: usize, funcs: &[usize], mods: &[usize], ones: &[usize], lsts: &[usize]) -> Stmt {
     let pad = |t: &mut Tape| " ".repeat(2 + 2 * t.choice(3));
-    match t.weighted(&[4, 3, 2, if funcs.is_empty() { 0 } else { 3 }, 2, 2, if funcs.is_empty() { 0 } else { 3 }, 2, 2, 2, 2, if mods.is_empty() { 0 } else { 3 }, if funcs.is_empty() { 0 } else { 3 }]) {
+    match t.weighted(&[4, 3, 2, if funcs.is_empty() { 0 } else { 3 }, 2, 2, if funcs.is_empty() { 0 } else { 3 }, 2, 2, 2, 2, if mods.is_empty() { 0 } else { 3 }, if funcs.is_empty() { 0 } else { 3 }, 2, 2, if ones.is_empty() || lsts.is_empty() { 0 } else { 4 }]) {
+        13 => {
+            let p = pad(t);
+            Stmt { lines: vec![format!("let g{} = func (e) =>", i), format!("{}e + 0", p), format!("{}+ @SLOT0@;", p)], slots: 1, defines_func: Some(1000 + i), calls_func: None, defines_mod: None, calls_mod: None }
+        }
+        14 => {
+            // a list bound in a statement of its own
+            let p = pad(t);
+            Stmt { lines: vec![format!("let l{} = [", i), format!("{}1, @SLOT0@];", p)], slots: 1, defines_func: None, calls_func: None, defines_mod: Some(2000 + i), calls_mod: None }
+        }
+        15 => {
+            // ... mapped / filtered by a named function in another statement
+            let f = ones[t.choice(ones.len())];
+            let l = lsts[t.choice(lsts.len())];
+            let p = pad(t);
+            let how = if t.chance(1, 2) { "map" } else { "filter" };
+            Stmt { lines: vec![format!("let a{} = {}(g{},", i, how, f - 1000), format!("{}l{}) +", p, l - 2000), format!("{}[@SLOT0@];", p)], slots: 1, defines_func: None, calls_func: Some(f), defines_mod: None, calls_mod: None }
+        }
         12 => {
             // the call is itself an argument of another call
             let f = funcs[t.choice(funcs.len())];
@@ -129,7 +147,7 @@ fn gen_stmt(t: &mut Tape, i: usize, funcs: &[usize], mods: &[usize]) -> Stmt {
     }
 }
 
-const PRELUDE: &str = "let idf = func (a) => a;\nlet vzero = 0;\nlet vstr = \"s\";\nlet vtup = {here = 1};\nlet addone = func (n) => n + 1;\n";
+const PRELUDE: &str = "let idf = func (a) => a;\nlet vzero = 0;\nlet vstr = \"s\";\nlet vtup = {here = 1};\nlet addone = func (n) => n + 1;\nlet vsel = select (\"a\", {x = 1}) => {a = {y = 1}};\n";
 
 struct Rendered {
     text: String,
@@ -245,7 +263,7 @@ impl C17 {
             o.class("fault-in-function-body");
         }
         // likewise a module body is evaluated only when the module is instantiated
-        if fs.defines_mod.is_some() {
+        if fs.defines_mod.map(|m| m < 2000).unwrap_or(false) {
             if !c.syntax && !c.stmts.iter().any(|s| s.calls_mod == fs.defines_mod) {
                 o.verdict = Verdict::Discard("the faulty module is never instantiated".into());
                 return o;
@@ -359,13 +377,19 @@ impl Property for C17 {
         let mut stmts = vec![];
         let mut funcs: Vec<usize> = vec![];
         let mut mods: Vec<usize> = vec![];
+        let mut ones: Vec<usize> = vec![];
+        let mut lsts: Vec<usize> = vec![];
         for i in 0..n {
-            let s = gen_stmt(&mut t, i, &funcs, &mods);
-            if let Some(f) = s.defines_func {
-                funcs.push(f);
+            let s = gen_stmt(&mut t, i, &funcs, &mods, &ones, &lsts);
+            match s.defines_func {
+                Some(f) if f >= 1000 => ones.push(f),
+                Some(f) => funcs.push(f),
+                None => {}
             }
-            if let Some(m) = s.defines_mod {
-                mods.push(m);
+            match s.defines_mod {
+                Some(m) if m >= 2000 => lsts.push(m),
+                Some(m) => mods.push(m),
+                None => {}
             }
             stmts.push(s);
         }
